@@ -13,6 +13,9 @@ CLAIMED = {
  "C09": ("DESIGN.md §4 C09",
          "Deductive proof (loop-free, hence complete) that mergeChanges preserves the fold: for every view consistent with a and b chaining on a, applying the merged event equals applying both; add;remove cancels, remove;add becomes replace, old values chain, LastSeedValue is or-ed, the newest value/time win.",
          "Kinds restricted to ADD/UPDATE/REPLACE/REMOVE (the ones that can occur). Not decided by this family: writers not waiting, eventual delivery, the 5 s send timeout (liveness/timing); DropExcess and mergeCollectionExcess step invariants are added in later revisions."),
+ "C15": ("DESIGN.md §4 C15",
+         "Deductive proof on the real code of the seven paged RPCs (ListModes, ListHails, ListPublications, ListConsumables, ListInventory, ListChildren, ListWasteRecords), for every collection content, page size and token: no index/slice panic, a negative page_size yields an error status, the page is the contiguous segment of the key-sorted listing that starts at the first key greater than the token's key, is at most the capped size (default 50, cap 1000) and is full unless it reaches the end, total_size is the listing length, the token is dropped on the last page; waste pages count down from a start index clamped into range. sort.Search/sort.Slice are used through contracts stated over the call site's own predicate.",
+         "Assumed: each model's List*() result is sorted strictly by the paging key (trusted postcondition; follows from C01's sorted Collection.List plus stored items carrying their collection id), sort.Search/sort.Slice/base64/proto.Marshal library contracts, token round trip through base64+proto (the chain-of-pages partition argument composes the per-call contract with it and is stated, not machine-checked). The read-mask loop of ListChildren is covered for safety and framing only."),
  "C17": ("DESIGN.md §4 C17",
          "Deductive proof on the real pkg/group code, for every member count (including none), every outcome vector and every completion order (a universally quantified ghost sequence resp(members,k) constrained only by 'each member responds once'): ExecuteUpTo/All/Most/Any fail exactly when more than the budget / some / more than half / all members fail, results land at the member's own index, the error returned is the first observed, cancel is called as soon as the budget is exceeded and all responses are drained; ExecuteOne calls members in order until one succeeds (ghost call log); Fast/Race return the first success / first response; Execute never indexes out of range; executeEach's channel is buffered so no sender stays blocked after an early return.",
          "executeEach's goroutines are outside the subset: that its channel delivers exactly one response per member and then closes (chanTotal, chanSeq == resp) is a trusted postcondition; its buffer capacity and freshness are proved. Members are assumed not to write memory the package reads. Real scheduling is represented by the quantified completion order."),
